@@ -330,7 +330,7 @@ Shapes(k, st) ==
         u |-> U(<<Slot(Root, k, "A", RefC(R(Root, Root, k, "B", st))), Slot(Root, k, "B", RefC(R(Root, A1, k, "X", st))),
                   Slot(A1, k, "B", Conc("extB", <<>>)),
                   Slot(A1, k, "X", Conc("X", <<Ch(s.site, k, R(A1, A1, k, "B", st))>>))>>, R(Root, Root, k, "A", st), k)]}
-      : s \in {x \in Sites(k) : x.site \in {"properties", "items", "allOf"}}}
+      : s \in {x \in Sites(k) : x.site \in {"properties", "items", "allOf", "anyOf", "oneOf", "not", "additionalProperties"}}}
     ELSE {})
    \cup
    (IF k = "responses" THEN
